@@ -36,6 +36,8 @@ struct GMGPolarVerifAccess {
                 g.implicitlyExtrapolatedMultigrid_F_Cycle(depth, sol, rhs, res);
         }
     }
+    static void build_rhs_f(GMGPolar& g, const Level& l, Vector<double>& v) { g.build_rhs_f(l, v); }
+    static void discretize_rhs_f(GMGPolar& g, const Level& l, Vector<double>& v) { g.discretize_rhs_f(l, v); }
     static int preSteps(const GMGPolar& g) { return g.pre_smoothing_steps_; }
     static int postSteps(const GMGPolar& g) { return g.post_smoothing_steps_; }
 };
